@@ -69,6 +69,55 @@ def run_symlinks(tier, seed):
             "clause": "files discovered for analysis / dependency updates are regular files inside the target; files outside are byte-identical after the writers ran"}
 
 
+def run_context_paths(tier, seed):
+    """BOUNDED stand-in: the two file selections of a real CodemodExecutionContext against the statement: find-and-fix codemods use the
+    user's patterns or the defaults (default includes / default excludes); SAST-driven codemods honour the user's patterns WITHOUT the
+    default excludes."""
+    import fnmatch
+    import json
+    import shutil
+    import tempfile
+    from pathlib import Path
+    from codemodder.code_directory import DEFAULT_EXCLUDED_PATHS, DEFAULT_INCLUDED_PATHS
+    from codemodder.context import CodemodExecutionContext
+    from codemodder.project_analysis.python_repo_manager import PythonRepoManager
+    from codemodder.providers import load_providers
+    from codemodder.registry import load_registered_codemods
+    root = Path(tempfile.mkdtemp(prefix="pyvc_c05ctx_"))
+    files = ["app.py", "pkg/mod.py", "pkg/data.txt", "tests/test_app.py", "build/gen.py", ".venv/lib/x.py", "docs/conf.py", "src/tests/helper.py"]
+    for f in files:
+        (root / f).parent.mkdir(parents=True, exist_ok=True)
+        (root / f).write_text("x = 1\n")
+    reg = load_registered_codemods()
+
+    def sel(names, inc, exc):
+        return sorted(n for n in names if any(fnmatch.fnmatch(n, q.split(":")[0]) for q in inc)
+                      and not any(":" not in q and fnmatch.fnmatch(n, q) for q in exc))
+    cases = [([], []), (["*.py", "**/*.py"], []), ([], ["pkg/*"]), (["tests/*.py"], []), (["**/*.py"], ["docs/*"]), (["pkg/mod.py:1"], []), ([], ["app.py:1"])]
+    evals, bad = 0, None
+    try:
+        for inc, exc in cases:
+            ctx = CodemodExecutionContext(root, True, False, reg, load_providers(), PythonRepoManager(root), inc, exc, {}, 1)
+            rel = lambda ps: sorted(str(p.relative_to(root)) for p in ps)
+            got_ff = rel(ctx.find_and_fix_paths)
+            want_ff = sel(files, inc or DEFAULT_INCLUDED_PATHS, exc or DEFAULT_EXCLUDED_PATHS)
+            got_sast = rel(ctx.filter_paths(ctx.files_to_analyze))
+            want_sast = sel(files, inc or list(reg.default_include_paths), exc)
+            evals += 2
+            if got_ff != want_ff and bad is None:
+                bad = {"selection": "find-and-fix", "include": inc, "exclude": exc, "selected": got_ff, "reference": want_ff}
+            if got_sast != want_sast and bad is None:
+                bad = {"selection": "SAST (user patterns, no default excludes)", "include": inc, "exclude": exc, "selected": got_sast, "reference": want_sast}
+    finally:
+        shutil.rmtree(root, ignore_errors=True)
+    return {"kind": "bounded", "id": "bounded:context file selections (find-and-fix: defaults when no pattern; SAST: no default excludes)",
+            "status": "refuted" if bad else "discharged", "bound": f"{len(cases)} include/exclude combinations over a tree of {len(files)} files (tests/, build/, .venv/, docs/, non-Python)",
+            "evaluations": evals, "witness": bad, "func": "codemodder.context.CodemodExecutionContext.filter_paths",
+            "reason": "" if not bad else f"{bad['selection']} selection differs from the reference",
+            "replay": {"reproduced": True, "detail": json.dumps(bad, default=str)} if bad else None,
+            "clause": "find_and_fix_paths == spec(include or default includes, exclude or default excludes); filter_paths(all files) == spec(include or registry default includes, exclude)"}
+
+
 def extra_checks(tier="quick", seed=0):
     import os
     import codemodder
@@ -76,4 +125,4 @@ def extra_checks(tier="quick", seed=0):
     from pyvc.api import REG
     src = os.path.dirname(os.path.dirname(os.path.abspath(codemodder.__file__)))
     from contracts.props.C17 import run_parse_args
-    return framescan.obligations(src, REG.contracts) + [run_parse_args(tier, seed, ("--path-include", "--path-exclude")), run_symlinks(tier, seed)]
+    return framescan.obligations(src, REG.contracts) + [run_parse_args(tier, seed, ("--path-include", "--path-exclude")), run_symlinks(tier, seed), run_context_paths(tier, seed)]
